@@ -306,7 +306,17 @@ Eff(a, inp, s) ==
     [] a = "AInner" -> E_AInner(inp, s) [] a = "ADone" -> E_ADone(inp, s)
 
 \* the machine as a function (used by the Judge module on recorded cases)
-Step(inp, s) == Eff(CHOOSE a \in ActionNames : Guard(a, inp, s), inp, s)
+\* (Candidates only narrows the search by program counter; invariant Deterministic checks it loses nothing)
+Candidates(pc) ==
+  CASE pc \in JoinPcs  -> {"JPop", "JMatch", "JEmit", "JEnd"}
+    [] pc = "start"    -> {"CGroup", "AGroup"}
+    [] pc = "dispatch" -> {"CNoOuter", "CSingle", "CMulti"}
+    [] pc = "orings"   -> {"COuterRing", "COuterDone"}
+    [] pc = "irings"   -> {"CInnerRing", "CFinish"}
+    [] pc = "annO"     -> {"AOuter", "AOuterDone"}
+    [] pc = "annI"     -> {"AInner", "ADone"}
+    [] OTHER           -> {}
+Step(inp, s) == Eff(CHOOSE a \in Candidates(s.pc) : Guard(a, inp, s), inp, s)
 RECURSIVE RunToEnd(_, _)
 RunToEnd(inp, s) == IF s.pc = "done" THEN s ELSE RunToEnd(inp, Step(inp, s))
 RunModel(inp) == RunToEnd(inp, [A0 EXCEPT !.pc = "start"])
@@ -341,8 +351,8 @@ NormRing(ring) ==
        IN <<"closed", [i \in 1 .. n |-> open[((i + k - 2) % n) + 1]]>>
   ELSE <<"open", ring>>
 NormPoly(p) == IF Len(p) = 0 THEN <<0, << >>, {}>> ELSE <<Len(p), NormRing(p[1]), {NormRing(p[j]) : j \in 2 .. Len(p)}>>
-SameGeom(a, b) == /\ a.feature = b.feature /\ Len(a.polys) = Len(b.polys)
-                  /\ {NormPoly(a.polys[i]) : i \in 1 .. Len(a.polys)} = {NormPoly(b.polys[i]) : i \in 1 .. Len(b.polys)}
+GeomOf(a) == <<a.feature, Len(a.polys), {NormPoly(a.polys[i]) : i \in 1 .. Len(a.polys)}>>
+SameGeom(a, b) == GeomOf(a) = GeomOf(b)
 
 \* after annotation every way member carries the direction in which it runs around its ring
 OrientationAnnotated(g, members, annot) ==
@@ -424,7 +434,9 @@ ConvertRecovers == (run.task = "convert" /\ st.pc = "done") => RingsRecovered(g,
 AnnotateMarks   == (run.task = "annotate" /\ st.pc = "done") => OrientationAnnotated(g, members, st.annot)
 
 \* the step function is well defined: exactly one action is enabled in every running state
-Deterministic == st.pc \notin {"idle", "done"} => Cardinality({a \in ActionNames : Guard(a, Inp, st)}) = 1
+Deterministic == st.pc \notin {"idle", "done"} =>
+   /\ Cardinality({a \in ActionNames : Guard(a, Inp, st)}) = 1
+   /\ \A a \in ActionNames : Guard(a, Inp, st) => a \in Candidates(st.pc)
 
 \* the two removal loops of Join both delete exactly the found segment
 RemoveIsRemoveAt == \A i \in 1 .. Len(st.segs) : RemoveShift(st.segs, i - 1) = RemoveAt(st.segs, i)
@@ -441,6 +453,9 @@ SameForBothCoordinateSources ==
   Ready => \A m \in MasksFor(Len(members)) : SameGeom(ModeResult("nodes", m), ModeResult("waynodes", m))
 SameWithOrWithoutOrientation ==
   Ready => \A m \in MasksFor(Len(members)) : SameGeom(ModeResult("nodes", NoneMask(Len(members))), ModeResult("nodes", m))
+
+\* the generating machine produces exactly the declared input space (checked for small shapes)
+ReadyIsCase == Ready => members \in Cases(g)
 
 Terminates == <>(st.pc = "done")
 =============================================================================
